@@ -10,6 +10,7 @@ func C14(p *core.Prog, r *core.Report) {
 	Key9(p, r)
 	Key10(p, r)
 	Key11(p, r)
+	Key12(p, r)
 	PayloadEncode(p, r)
 	HashStrong(p, r)
 	MapOrder(p, r)
